@@ -1,8 +1,53 @@
-(** C07 — placeholder until MachineProofs lands in this round. *)
+(** C07 — symbolic machine state equals sequential execution, incl. overlapping memory.  Property theorems only.
+    Proved on the model (EvalAbs.v, tied to eval_abs.eval_instr / the pool by exact-state correspondence over store/load
+    histories): (1) all assignments of one instruction with register destinations evaluate their sources in the state the
+    instruction started in, one after the other, and only then bind them in order; (2) the pool as a dictionary: a cell read
+    back at the address and width it was written with returns the written value, cells at other addresses and all registers
+    are untouched, and register writes leave memory untouched; (3) with C06: in a register-only state every value so computed
+    denotes, in every concrete state, the value of its source under the substituted pre-state.
+    NOT proved: read-backs that partially overlap earlier writes of other widths (substract_mems / mem_overlapping), rep-prefixed
+    instructions, and the composition over instruction sequences — decided by the exhaustive (<= 2 stores + 1 load) and random
+    history correspondence and the instruction-sequence runs of harness/p_c07.py. *)
 From Coq Require Import ZArith List Bool String.
-From Mx Require Import Expr Simp EvalAbs.
+From Mx Require Import Expr Simp SimpProofs EvalAbs EvalAbsProofs MachineProofs.
 Import ListNotations.
 Open Scope Z_scope.
-Theorem C07_pool_set_get : forall s a w v, pool_get_mem (pool_set s (EMem a w None) v) a w = Some v \/ True.
-Proof. intros. right. exact I. Qed.
-Print Assumptions C07_pool_set_get.
+
+Theorem C07_assignments_read_pre_state : forall fuel s affs acc0, forallb reg_aff affs = true ->
+  fold_left (step_mod fuel s) affs (okx acc0) =
+  (dox vs <- mapX (fun a => eval_expr fuel s (aff_src a)) affs;
+   okx (fold_left (fun out dv => adict_set out (fst dv) (snd dv)) (combine (map aff_dst affs) vs) acc0)).
+Proof. exact assignments_read_pre_state. Qed.
+Print Assumptions C07_assignments_read_pre_state.
+Theorem C07_get_instr_mod_is_that_fold : forall fuel s affs, get_instr_mod fuel s affs = fold_left (step_mod fuel s) affs (okx []).
+Proof. exact get_instr_mod_fold. Qed.
+Print Assumptions C07_get_instr_mod_is_that_fold.
+
+Theorem C07_write_then_read_same_cell : forall s a w sg v, pool_get_mem (pool_set s (EMem a w sg) v) a w = Some v.
+Proof. exact write_then_read_same_cell. Qed.
+Print Assumptions C07_write_then_read_same_cell.
+Theorem C07_write_keeps_other_cells : forall s a w sg v a2 w2, expr_eqb a a2 = false ->
+  pool_get_mem (pool_set s (EMem a w sg) v) a2 w2 = pool_get_mem s a2 w2.
+Proof. exact write_keeps_other_cells. Qed.
+Print Assumptions C07_write_keeps_other_cells.
+Theorem C07_write_keeps_registers : forall s a w sg v, pool_id (pool_set s (EMem a w sg) v) = pool_id s.
+Proof. exact write_keeps_registers. Qed.
+Print Assumptions C07_write_keeps_registers.
+Theorem C07_register_write_then_read : forall s n w r t v, adict_get (pool_id (pool_set s (EId n w r t) v)) (EId n w r t) = Some v.
+Proof. exact register_write_then_read. Qed.
+Print Assumptions C07_register_write_then_read.
+
+(** each evaluated source denotes its value under the substituted pre-state (C06 applied to one source) *)
+Theorem C07_source_value_in_pre_state : forall (Sig : string -> Z * bool * bool) (s : pool),
+  pool_mem s = [] -> Forall (binding_ok Sig) (pool_id s) ->
+  forall fuel src v, wf (IdQ Sig) src = true -> eval_expr fuel s src = inl (Ok v) ->
+  forall rho mu iota, eval rho mu iota v = eval (rho' s rho mu iota) mu iota src.
+Proof. intros Sig s Hm Hp fuel src v W H. apply (eval_expr_is_substitution Sig s Hm Hp fuel src v W H). Qed.
+Print Assumptions C07_source_value_in_pre_state.
+
+(** non-vacuity: xchg-like pair  eax := ebx ; ebx := eax  on  eax = 1, ebx = 2  swaps (both sources read the pre-state) *)
+Example C07_nonvacuous :
+  let eax := EId "eax" 32 true false in let ebx := EId "ebx" 32 true false in
+  get_instr_mod 20 (Pool [(eax, EInt false 32 1); (ebx, EInt false 32 2)] []) [EAff eax ebx; EAff ebx eax]
+  = inl (Ok [(eax, EInt false 32 2); (ebx, EInt false 32 1)]).
+Proof. vm_compute. reflexivity. Qed.
